@@ -530,6 +530,11 @@ type pdesc struct {
 	PreTask  bool     `json:"preTask"` // the catch event is armed only after this task is answered
 	Steps    []step   `json:"steps"`
 	AnswerAt int      `json:"answerAt"` // index of the step before which the pre-task is answered
+	// Depth: the pre-task, the catch event and the task behind it sit inside
+	// 0..3 nested embedded sub-processes that hold nothing else (start ->
+	// sub-process -> end at every level): the timer's firing has to reach the
+	// listening catch event through every level
+	Depth int `json:"depth,omitempty"`
 }
 
 func runProcess(d pdesc) *result {
@@ -539,6 +544,17 @@ func runProcess(d pdesc) *result {
 	b := gen.NewB()
 	st := b.Add(gen.KStart)
 	cur := st
+	rootB := b
+	for lvl := 0; lvl < d.Depth; lvl++ {
+		sp := b.Add(gen.KSub)
+		spEnd := b.Add(gen.KEnd)
+		b.Connect(cur, sp)
+		b.Connect(sp, spEnd)
+		ib := b.Sub()
+		sp.Inner = ib.G
+		b = ib
+		cur = b.Add(gen.KStart)
+	}
 	var pre *gen.Node
 	if d.PreTask {
 		pre = b.Add(gen.KTask)
@@ -552,7 +568,7 @@ func runProcess(d pdesc) *result {
 	b.Connect(c, after)
 	en := b.Add(gen.KEnd)
 	b.Connect(after, en)
-	p := &gen.Program{G: b.G, DefaultLang: "expr"}
+	p := &gen.Program{G: rootB.G, DefaultLang: "expr"}
 	defs, err := schema.Parse([]byte(p.XML()))
 	if err != nil {
 		r.Symptom, r.Detail = "construct", err.Error()
@@ -705,7 +721,7 @@ func TestC13Process(t *testing.T) {
 				steps = append(steps, s)
 			}
 		}
-		d := pdesc{Def: def, PreTask: rapid.Bool().Draw(rt, "pre"), Steps: steps}
+		d := pdesc{Def: def, PreTask: rapid.Bool().Draw(rt, "pre"), Steps: steps, Depth: rapid.SampledFrom([]int{0, 0, 1, 2, 3}).Draw(rt, "depth")}
 		if len(steps) > 0 {
 			d.AnswerAt = rapid.IntRange(0, len(steps)-1).Draw(rt, "answerAt")
 		}
